@@ -214,7 +214,7 @@ def run(eng, ctx, reader_side=True):
     ctx.instance("recv call sites", len(recvs), 1)
     for e in recvs:
         a = e.term[3]
-        ok = len(a) == 1 and _field_of(a[0]) is not None and stored.get(_field_of(a[0])) == ("param", "bufsize") and not e.guards
+        ok = len(a) == 1 and _field_of(a[0]) is not None and stored.get(_field_of(a[0])) == ("param", "bufsize") and not e.guards and any(len(c_) == 0 for c_ in (e.dnf or ((),)))
         ctx.check(ok, "C11.D4", rv.qualname, norm(e.node), expected="recv(self.<bufsize field>) unconditionally", found=show(e.term)[:60], **eng.loc(rv, e.node))
     if len(recvs) == 1:
         data = recvs[0].term
